@@ -31,3 +31,18 @@ impl Clone for Mapping {
   }
 }
 
+
+// ---- what the mapper and the event loop require of a layout (established by the converter, C14) ----
+// repeat parameters the event loop can turn into a Duration: non-negative milliseconds, no key twice in the chord
+pub open spec fn repeatv_ok(r: RepeatV) -> bool {
+  match r { RepeatV::Special { keys, delay_ms, interval_ms } => delay_ms >= 0 && interval_ms >= 0 && keys.no_duplicates(), _ => true }
+}
+pub open spec fn repeat_ok(r: Repeat) -> bool { repeatv_ok(rview(r)) }
+pub open spec fn mapping_ok(m: Mapping) -> bool {
+  m.from@.len() >= 1 && m.from@.no_duplicates() && m.to@.no_duplicates() && repeat_ok(m.repeat)
+}
+
+pub open spec fn layout_ok(l: Layout) -> bool {
+  forall|i: int| 0 <= i < l.mappings@.len() ==> mapping_ok(#[trigger] l.mappings@[i])
+}
+
